@@ -28,6 +28,57 @@ def probes(s, n, at):
     s.add("P.2.%s" % nu.ipv4_packet(nu.node_ip(2), nu.node_ip(1), bytes([at & 0xff])), "A", "O.1")
 
 
+def forged_lines(rng, thorough):
+    """forged, not replayed: well-formed datagrams sealed under a guessable key (all key bytes equal) for every cipher, key slot
+    and nonce half, carrying a CLOSE, a node-info and a data message, from the healthy peer's address; early after the
+    handshake (key slots 1-3 not yet rotated in) and later"""
+    out = []
+    plains = ["ff", "01" + "04001000000000000000000000000000000000" + "00", "00" + nu.ipv4_packet(nu.node_ip(9), nu.node_ip(1))]
+    for off in ([0, 3, 130, 250] if thorough else [0, 130]):
+        for n in (2, 3):
+            s = base(rng, n)
+            if off:
+                s.tick(off)
+            for dst in (1, 2):
+                for alg in (1, 2, 3):
+                    for keyid in (0, 1, 2, 3, 4, 255):
+                        for half in (0, 1):
+                            for kb in (0, 255):
+                                s.add("Y.%d.%d.%d.%d.%d.%d.%s" % (dst, 3 - dst, alg, keyid, half, kb, rng.choice(plains)))
+                s.add("O.%d" % dst)
+            s.add("A", "O.1", "O.2", "S.1", "S.2")
+            for at in range(1, 61):
+                s.tick(1)
+                if at in (1, 2, 3, 6, 31, 60):
+                    probes(s, n, at)
+            s.add("S.1", "S.2")
+            out.append(s.line())
+    return out
+
+
+def every_position_lines(rng, thorough):
+    """one bit flipped at every byte position of the three genuine handshake datagrams of the connection 1-2 (ping, pong, peng),
+    re-injected at either end from the healthy peer's address: length and count fields that are read before anything is verified
+    sit at fixed offsets, some of them behind the signed region"""
+    out = []
+    for k in (0, 1, 2):
+        for lo in range(0, 280, 70):
+            s = base(rng, 2)
+            s.tick(rng.choice([0, 3, 70]))
+            for pos in range(lo, lo + 70):
+                for bit in sorted(set([7, rng.randrange(8)] + (list(range(8)) if thorough else []))):
+                    dst = rng.choice([1, 2])
+                    s.add("F.%d.%d.%d.%d.%d" % (k, dst, 3 - dst, pos, bit))
+            s.add("A", "O.1", "O.2", "S.1", "S.2")
+            for at in range(1, 8):
+                s.tick(1)
+                if at in (1, 2, 6):
+                    probes(s, 2, at)
+            s.add("S.1", "S.2")
+            out.append(s.line())
+    return out
+
+
 class C09(Property):
     id = "C09"
     rule = ("2-3 connected mock nodes; every datagram observed during establishment and operation (about 12) is re-injected at a later "
@@ -94,29 +145,8 @@ class C09(Property):
                                 probes(s, 3, at)
                         s.add("S.1", "S.2")
                         out.append(s.line())
-        # forged, not replayed: well-formed datagrams sealed under a guessable key (all key bytes equal) for every cipher, key slot
-        # and nonce half, carrying a CLOSE, a node-info and a data message, from the healthy peer's address; early after the
-        # handshake (key slots 1-3 not yet rotated in) and later
-        plains = ["ff", "01" + "04001000000000000000000000000000000000" + "00", "00" + nu.ipv4_packet(nu.node_ip(9), nu.node_ip(1))]
-        for off in ([0, 3, 130, 250] if thorough else [0, 130]):
-            for n in (2, 3):
-                s = base(rng, n)
-                if off:
-                    s.tick(off)
-                for dst in (1, 2):
-                    for alg in (1, 2, 3):
-                        for keyid in (0, 1, 2, 3, 4, 255):
-                            for half in (0, 1):
-                                for kb in (0, 255):
-                                    s.add("Y.%d.%d.%d.%d.%d.%d.%s" % (dst, 3 - dst, alg, keyid, half, kb, rng.choice(plains)))
-                    s.add("O.%d" % dst)
-                s.add("A", "O.1", "O.2", "S.1", "S.2")
-                for at in range(1, 61):
-                    s.tick(1)
-                    if at in (1, 2, 3, 6, 31, 60):
-                        probes(s, n, at)
-                s.add("S.1", "S.2")
-                out.append(s.line())
+        out += forged_lines(rng, thorough)
+        out += every_position_lines(rng, thorough)
         return out
 
     def model_line(self, line, impl_out):
